@@ -429,6 +429,7 @@ func runC08(c *Ctx) {
 	runC08MigrateSiblings(c)
 	runC08ByteSliceNonNil(c)
 	runC08Round5(c)
+	runC08Recursion(c)
 }
 
 func uniq(a, b string) []string {
